@@ -129,6 +129,17 @@ def analyzer_plans(ck, cfgs):
                 n += 1
                 if p["nf"] < 1:
                     ck.violation("%s: analyzer plan has no bins" % nm, dict(sched_kwargs(cfg), scheduler=nm), tag="%s:analyzer:nobins" % nm)
+                # the analyzer's plan is the scheduler's plan for the configuration it was given (same olap, bmin, Lmin, Jdes, Kdes)
+                res = sched.run_sched(nm, cfg)
+                if res["ok"]:
+                    q = res["plan"]
+                    same = len(q["f"]) == len(p["f"]) and all(np.array_equal(np.asarray(p[k]), np.asarray(q[k])) for k in ("f", "L", "K")) \
+                        and all(np.array_equal(np.asarray(a), np.asarray(b)) for a, b in zip(p["D"], q["D"]))
+                    if not same:
+                        j = next((i for i in range(min(len(p["f"]), len(q["f"]))) if p["L"][i] != q["L"][i] or p["K"][i] != q["K"][i] or p["f"][i] != q["f"][i]), -1)
+                        ck.violation("%s: the plan built through SpectrumAnalyzer differs from the scheduler's plan for the same configuration (olap=%r): %d vs %d bins%s" %
+                                     (nm, cfg["olap"], len(p["f"]), len(q["f"]), "" if j < 0 else ", first difference at bin %d (L %d/%d, K %d/%d)" % (j, p["L"][j], q["L"][j], p["K"][j], q["K"][j])),
+                                     dict(sched_kwargs(cfg), scheduler=nm), tag="%s:analyzer:differs" % nm)
             except Exception as e:
                 n += 1
                 ck.violation("%s: SpectrumAnalyzer.plan() raised %s: %s" % (nm, type(e).__name__, str(e)[:150]),
